@@ -455,7 +455,9 @@ class Replayer:
                 if g is not self.W.prog(v["cls"]):
                     self.bad("%s:programmatic-value-not-served" % s, "%s: %s is %r, expected the object the program set (%s)" % (where, s, g, v["cls"]))
             else:
-                want = self.W.d_obj(v, s); have = d_cacher(g) if s == "cacher" else d_logger(g)
+                want = self.W.d_obj(v, s)
+                try: have = d_cacher(g) if s == "cacher" else d_logger(g)
+                except Exception as e: have = ["not a %s: %r (%s)" % (s, g, type(e).__name__)]
                 if have != want: self.bad(self.cls_obj(s, v, want, have), "%s: %s is %r, expected %r" % (where, s, have, want))
 
     def sections(self, key):
@@ -481,7 +483,7 @@ class Replayer:
     def cls_obj(self, s, v, want, have):
         p = v["path"]
         if p["base"] in ("dir", "parent", "home") and have[0] == want[0]:
-            got_path = have[1] if s == "cacher" else (have[1][1] if len(have[1]) > 1 else None)
+            got_path = (have[1] if len(have) > 1 else None) if s == "cacher" else (have[1][1] if len(have) > 1 and len(have[1]) > 1 else None)
             for c in (self.files_at_load or self.files).values():
                 r = c[s] if c["kind"] == "obj" else None
                 if r and r["tail"] == p["tail"] and r["form"] in ("list", "xargs", "disklist") and got_path == path_text(r):
